@@ -26,8 +26,8 @@ ASSUMPTIONS = [
     "bounds to one rounding of the sum",
     "leaky clamp: 4*eps*(|x|+|min|+|max|) (the documented formula evaluated in floats; with slope 1 the second branch "
     "re-adds and subtracts the other bound)",
-    "torch.clamp's own rejections in 'max' mode (a Number bound mixed with a Tensor bound; no bound at all) are classified "
-    "as expected TypeError/RuntimeError and counted, never generated for the other configurations",
+    "in 'max' mode a number bound mixed with a tensor bound and a call without bounds must work like in 'mean' mode "
+    "(torch.clamp's own rejections were repaired in /repo)",
     "Whalley-Wilmott: delta and gamma = numerical derivatives (mpmath.diff, 50 digits) of zero-rate Black-Scholes prices "
     "written from their definitions for European, European binary (call/put) and American binary (call); for the lookback "
     "option the library's own delta and gamma are taken and only the band formula and the clip are checked (relation); "
@@ -53,7 +53,7 @@ def clamp_case(draw):
     # torch.as_tensor (global default dtype), so only such scalars are compared at full resolution (DESIGN 2.1)
     el = st.one_of(st.integers(-4, 4).map(lambda i: i / 2.0), fl(-2.0, 2.0, dtype), fl(-1e3, 1e3, dtype),
                    fl(-2.0, 2.0, "float32"), st.sampled_from([0.0, 1.0, -1.0, 0.25]))
-    F32 = lambda v: round_to(v, "float32")
+    F32 = lambda v: round_to(v, dtype)  # (number bounds are converted in the dtype of the input since the /repo repair)
     pool = draw(st.lists(el, min_size=2, max_size=5))
     pick = st.one_of(st.sampled_from(pool), st.sampled_from(pool), el)
     shape = draw(st.sampled_from([[], [3], [1], [4], [2, 3], [3, 1], [2, 2]]))
@@ -84,7 +84,7 @@ def clamp_case(draw):
             hi = {"kind": lo["kind"], "data": lo["data"]}
         else:
             off = draw(st.sampled_from([0.5, 1.0, 2.0 ** -10]))
-            rd = "float32" if lo["kind"] == "float" else dtype
+            rd = dtype
             hi = {"kind": lo["kind"], "data": _map(lo["data"], lambda v: round_to(v - off, rd))}
     return {"dtype": dtype, "x": x, "min": lo, "max": hi,
             "leaky": draw(st.booleans()), "via": draw(st.sampled_from(["function", "module"])),
@@ -126,17 +126,16 @@ def check_clamp(case, ctx):
     name = ("LeakyClamp" if leaky else "Clamp") if via == "module" else ("leaky_clamp" if leaky else "clamp")
     label = "C20/" + name
 
-    def expected(exc):
-        # torch.clamp (clamp with inverted_output='max') documents Tensor/Tensor or Number/Number bounds, at least one
-        if not leaky and mode == "max":
-            kinds = {None if b is None else b["kind"] for b in (case["min"], case["max"])}
-            if isinstance(exc, TypeError) and kinds == {"float", "tensor"}:
-                return "torch.clamp:mixed-number-tensor-bounds"
-            if isinstance(exc, RuntimeError) and kinds == {None}:
-                return "torch.clamp:no-bounds"
-        return None
+    # (torch.clamp's own rejections of mixed number/tensor bounds and of a call without bounds in 'max' mode were a
+    # defect of clamp/Clamp - repaired in /repo - so every configuration must return a value now)
+    if not leaky and mode == "max":
+        kinds = {None if b is None else b["kind"] for b in (case["min"], case["max"])}
+        if kinds == {"float", "tensor"}:
+            ctx.cls("max-mode:mixed-number-tensor-bounds")
+        if kinds == {None}:
+            ctx.cls("max-mode:no-bounds")
 
-    with ctx.sut(label, expected=expected):
+    with ctx.sut(label):
         if via == "module":
             if defaults:
                 mod = LeakyClamp() if leaky else Clamp()
